@@ -39,6 +39,8 @@ pub struct Shape {
     pub new: String,
     pub alg: Algorithm,
     pub dl: Dl,
+    /// TextDiffConfig::newline_terminated override (None = the default for line diffs)
+    pub nl: Option<bool>,
 }
 pub struct C16;
 
@@ -110,7 +112,11 @@ impl Prop for C16 {
                         if w == max_words && (alg != Algorithm::Myers || dl != Dl::NoDeadline) {
                             continue;
                         }
-                        v.push(Shape { old: o.clone(), new: n.clone(), alg, dl });
+                        v.push(Shape { old: o.clone(), new: n.clone(), alg, dl, nl: None });
+                        // the option only changes how the diff is rendered; the inline expansion must not depend on it
+                        if dl == Dl::NoDeadline && alg == Algorithm::Myers {
+                            v.push(Shape { old: o.clone(), new: n.clone(), alg, dl, nl: Some(false) });
+                        }
                     }
                 }
             }
@@ -119,7 +125,7 @@ impl Prop for C16 {
         for (o, n) in [("x x\n", "x x\nx\nx\nx\n"), ("x\nx\nx\nx x\n", "x x\n"), ("x x\n", "x\nx\nx"), ("x.x", "x\nx\nx\nx.x")] {
             for alg in ALGS {
                 for dl in [Dl::NoDeadline, Dl::Expired] {
-                    v.push(Shape { old: o.to_string(), new: n.to_string(), alg, dl });
+                    v.push(Shape { old: o.to_string(), new: n.to_string(), alg, dl, nl: None });
                 }
             }
         }
@@ -131,7 +137,15 @@ impl Prop for C16 {
         let old = symtxt::text_from_pattern(&s.old);
         let new = symtxt::text_from_pattern(&s.new);
         let (ot, nt) = (SymTxt::new(&old), SymTxt::new(&new));
-        let diff = TextDiff::configure().algorithm(s.alg).diff_lines(ot, nt);
+        let diff = {
+            let mut c = TextDiff::configure();
+            c.algorithm(s.alg);
+            if let Some(x) = s.nl {
+                c.newline_terminated(x);
+                engine::witness("paths_with_newline_terminated_overridden");
+            }
+            c.diff_lines(ot, nt)
+        };
         let ops = diff.ops().to_vec();
         let mut obs = String::new();
         for op in &ops {
@@ -218,10 +232,10 @@ impl Prop for C16 {
         (s.old.len() + s.new.len()) as u64
     }
     fn shape_json(&self, s: &Shape) -> Value {
-        json!({"old": s.old, "new": s.new, "alg": alg_name(s.alg), "deadline": s.dl.name()})
+        json!({"old": s.old, "new": s.new, "alg": alg_name(s.alg), "deadline": s.dl.name(), "newline_terminated": s.nl})
     }
     fn shape_from(&self, v: &Value) -> Shape {
-        Shape { old: v["old"].as_str().unwrap().into(), new: v["new"].as_str().unwrap().into(), alg: alg_from(v["alg"].as_str().unwrap()), dl: Dl::from(v["deadline"].as_str().unwrap()) }
+        Shape { old: v["old"].as_str().unwrap().into(), new: v["new"].as_str().unwrap().into(), alg: alg_from(v["alg"].as_str().unwrap()), dl: Dl::from(v["deadline"].as_str().unwrap()), nl: v["newline_terminated"].as_bool() }
     }
     fn describe(&self, s: &Shape, ints: &[i64], b: &[bool]) -> Value {
         json!({"old_pattern": s.old, "new_pattern": s.new, "character_values": ints, "clock": b})
@@ -234,10 +248,10 @@ impl Prop for C16 {
                 "similar::text::utils::upper_seq_ratio, similar::get_diff_ratio (0.5 gates, real f32)",
                 "capture_diff_deadline(Patience, MultiLookup, ..) with the H1 clock",
             ],
-            bounds: format!("(at most {} symbolic words in both texts together, {} under the symbolic clock) line texts of 0..={} lines per side built from the line shapes {:?} (words symbolic, separators space / punctuation), LF / CRLF / lone CR / unterminated last line, plus 1-against-4-line shapes for the line-count gate; x 3 algorithms x inline deadline {{None, already expired, built-in 500 ms under the symbolic clock}}", match tier { Tier::Quick => 6, Tier::Thorough => 7 }, match tier { Tier::Quick => 4, Tier::Thorough => 5 }, match tier { Tier::Quick => 2, Tier::Thorough => 3 }, match tier { Tier::Quick => &LINE_SHAPES[..3], Tier::Thorough => &LINE_SHAPES[..] }),
+            bounds: format!("(at most {} symbolic words in both texts together, {} under the symbolic clock) line texts of 0..={} lines per side built from the line shapes {:?} (words symbolic, separators space / punctuation), LF / CRLF / lone CR / unterminated last line, plus 1-against-4-line shapes for the line-count gate; x 3 algorithms x inline deadline {{None, already expired, built-in 500 ms under the symbolic clock}}; Myers without deadline also with TextDiffConfig::newline_terminated(false)", match tier { Tier::Quick => 6, Tier::Thorough => 7 }, match tier { Tier::Quick => 4, Tier::Thorough => 5 }, match tier { Tier::Quick => 2, Tier::Thorough => 3 }, match tier { Tier::Quick => &LINE_SHAPES[..3], Tier::Thorough => &LINE_SHAPES[..] }),
             outside: "the unicode word segmentation of real str / [u8] (third-party code; SymTxt's word tokenizer stands in); longer lines and texts".into(),
             assumptions: vec!["feature set text+inline+unicode+bytes; with `unicode` the inline code calls tokenize_unicode_words, which for SymTxt is the harness tokenizer (runs of ordinary characters, whitespace runs, single punctuation)".into()],
-            required_witnesses: vec!["replace_ops_expanded", "replace_ops_with_emphasis", "replace_ops_below_a_ratio_gate_or_without_common_words", "paths_where_the_inline_deadline_fired", "paths_where_the_default_inline_deadline_was_consulted"],
+            required_witnesses: vec!["replace_ops_expanded", "replace_ops_with_emphasis", "replace_ops_below_a_ratio_gate_or_without_common_words", "paths_where_the_inline_deadline_fired", "paths_where_the_default_inline_deadline_was_consulted", "paths_with_newline_terminated_overridden"],
             rule: "one state = one explored path (equality pattern of the characters x expiry point)".into(),
         }
     }
